@@ -97,7 +97,7 @@ def baseline_name(src, fn, pos, project):
     from supp.util import Source, get_name_usages, np
     try:
         source = Source(src, fn)
-        extract_scope(source, project)
+        top = extract_scope(source, project)
     except SyntaxError:
         return None
     for n in get_name_usages(source.tree):
@@ -105,7 +105,8 @@ def baseline_name(src, fn, pos, project):
             fl = getattr(n, 'flow', None)
             if fl is None:
                 return None
-            return sorted(fl.names_at(pos))
+            # the region table plus the module variables functions create through `global` (kept beside the region tables)
+            return sorted(set(fl.names_at(pos)) | set(getattr(top, '_global_names', {})))
     return None
 
 
